@@ -702,7 +702,7 @@ def _handle(req: tuple) -> Any:
         thorough = req[1]
         hist = list(corpus())
         hist += fault_sweeps(r, 60 if thorough else 8)
-        for _ in range(2500 if thorough else 260):
+        for _ in range(2500 if thorough else 210):
             hist.append(gen_history(r, 10 if thorough else 6))
         return hist
     if req[0] == "rawrender":
@@ -1921,7 +1921,7 @@ def _main(chk: C.Check, pristine: Pristine) -> None:
 
     # partials edited on disk behind a CachingFileSystemLoader(auto_reload=True)
     n_fs = n_fs_edits_seen = n_fs_back = 0
-    for _ in range(400 if thorough else 30):
+    for _ in range(400 if thorough else 24):
         sc = fs_scenario(r)
         last_by_name: dict[str, tuple] = {}
         for st in run_fs_scenario(sc):
@@ -1947,7 +1947,7 @@ def _main(chk: C.Check, pristine: Pristine) -> None:
                           "replay": {"fs_render": st["name"], "files": srcs, "implementation": st["obs"]}})
     # overlapping async loads on a cold caching loader, different globals per task
     n_conc = n_conc_collide = 0
-    for _ in range(500 if thorough else 45):
+    for _ in range(400 if thorough else 36):
         sc = conc_scenario(r)
         res = run_conc_scenario(sc)
         for wi, (tasks, outs) in enumerate(zip(sc["waves"], res)):
@@ -1959,7 +1959,7 @@ def _main(chk: C.Check, pristine: Pristine) -> None:
                 pr = pristine.call(("concfresh", sc["store"], sc["auto"], sc["globals"], task))
                 n_pristine += 1
                 if fr != obs or pr != obs:
-                    chk.finding("concurrent-load:" + ("cold" if wi == 0 else "warm") + f":{obs[0]}-vs-{fr[0]}",
+                    chk.finding("concurrent-load:" + ("first-wave" if wi == 0 else "later-wave") + f":{obs[0]}-vs-{fr[0]}",
                                 f"task {ti} of wave {wi} ({task[0]} {task[1] if task[0] == 'gt' else src_of(task[1])!r}, globals "
                                 f"{task[2]}) run overlapping with {len(tasks) - 1} other task(s) on a shared caching loader gives {obs}; "
                                 f"alone on freshly built objects it gives {fr} (pristine process: {pr})",
